@@ -359,10 +359,11 @@ pub async fn exec(app: &Arc<AppShareData>, op: &Value) -> Value {
                 for s in d["services"].as_array().cloned().unwrap_or_default() {
                     for i in s["instances"].as_array().cloned().unwrap_or_default() {
                         out.push(json!({"service": s["service"], "ip": i["ip"], "port": i["port"], "healthy": i["healthy"], "enabled": i["enabled"],
-                            "weight": i["weight"], "client": i["client_id"], "from_cluster": i["from_cluster"], "from_grpc": i["from_grpc"]}));
+                            "weight": i["weight"], "client": i["client_id"], "from_cluster": i["from_cluster"], "from_grpc": i["from_grpc"], "lm": i["last_modified"]}));
                     }
                 }
-                Ok(json!({"res":"ok","instances":out,"clients":d["client_instance_set"]}))
+                let queues: Vec<Value> = d["services"].as_array().cloned().unwrap_or_default().iter().map(|s| json!({"service": s["service"], "healthy_q": s["healthy_timeout_items"], "unhealthy_q": s["unhealthy_timeout_items"]})).collect();
+                Ok(json!({"res":"ok","instances":out,"clients":d["client_instance_set"],"queues":queues,"range":d["current_range"]}))
             }
             "cfg_tmp" => {
                 // the follower's echo of a publish it routed to the leader (ConfigRoute::set_config, Remote branch)
